@@ -41,13 +41,16 @@ PROPS = {
                         "machine 64-bit multiply/divide/remainder are uninterpreted in the complete proofs (rule E10) and cross-checked only at context width <= 8 (bounded stand-ins)"],
     },
     "C18": {
-        "units": ["wide", "opeval", "bigeval"],
+        "units": ["wide", "opeval", "bigeval", "interp"],
         "level": "proof",
         "clause": "Multi-word run-time helpers (crates/simulator/src/wide_ops.rs, used by the JIT and C engines above 128 bits): all 24 wide_* helpers plus nw, sext_word, "
                   "pack/unpack_nb_width compute the mathematically correct multi-word result (add/sub/negate/mul modulo 2^(64n), signed/unsigned compare, shifts by any amount, "
                   "sign/zero extension, masks, reductions) for every word count and every value, with every memory access in bounds (Verus, unbounded). "
                   "Interpreter engine, widths <= 64: Expression::eval (crates/simulator/src/ir/expression.rs) evaluates Unary/Binary nodes by calling exactly Op::eval_value_unary / "
-                  "Op::eval_value_binary, which are proved equal to the IEEE 1800 reference for all values at widths <= 64 (Kani) and above 64 (unit bigeval, Verus, assumed num-bigint contracts) - the same contracts as C17, so run-time == compile-time there.",
+                  "Op::eval_value_binary, which are proved equal to the IEEE 1800 reference for all values at widths <= 64 (Kani) and above 64 (unit bigeval, Verus, assumed num-bigint contracts) - the same contracts as C17, so run-time == compile-time there. "
+                  "Interpreter glue (unit interp, the real recursive Expression::eval on real enum trees with Value leaves): Unary/Binary nodes pass exactly the children's values and the node's "
+                  "(width, signed) to the operator functions; Ternary selects by 'some known 1', extends the selected branch by the node's both-branches-signed flag (per-bit), and agrees with "
+                  "the analyzer's extracted compile-time Ternary arm; Concatenation layout/width/signedness (bounded in the number of elements, labelled).",
         "assumptions": ["not covered: the Cranelift and AOT-C code that calls the helpers and all <=128-bit machine-code lowering, Op::Pow, "
                         "that Expression::eval passes the same (width, signed) as the analyzer",
                         "wide_ops: raw pointers re-typed to Vec<u64> (rule E5): pointer validity, alignment and aliasing of dst with an operand are not modelled"],
